@@ -1,5 +1,81 @@
 package main
 
-func runReplay(path string) int { return fail2("replay not implemented yet") }
+import (
+	"fmt"
+	"os"
+	"path/filepath"
+	"time"
+
+	"verif/harness/world"
+	"verif/simrt/spec"
+)
+
+// runReplay rebuilds the world of a replay file from the current /repo tree and
+// re-executes the recorded plan (or re-checks boot admission) in a fresh process.
+func runReplay(path string) int {
+	rf, w, err := loadReplay(path)
+	if err != nil {
+		return fail2("loading replay: %v", err)
+	}
+	pc, err := getProp(rf.Property)
+	if err != nil {
+		return fail2("%v", err)
+	}
+	if pc.customReplay != nil {
+		return pc.customReplay(pc, rf, w)
+	}
+	fmt.Printf("replay property=%s class=%s signature=%s recorded_tree=%s current_tree=%s\n", rf.Property, rf.Class, rf.Signature, rf.RepoTree, repoTreeHash())
+	b, err := world.NewBatch([]*spec.World{w}, world.Options{Passes: pc.passes, SkipTS: !pc.needTS})
+	if b != nil {
+		defer b.Close()
+	}
+	if err != nil {
+		return fail2("%v", err)
+	}
+	if pc.needTS {
+		world.AdmitTS(b)
+	}
+	bw := b.Worlds[0]
+	if bw.Refused != "" {
+		fmt.Printf("world refused by a plugin: %s\n", bw.Refused)
+		return 0
+	}
+	if bw.BootErr != "" {
+		sig := bootSignature(rf.Property, w, bw.BootErr)
+		fmt.Printf("boot failure: %s\nsignature=%s\n", bw.BootErr, sig)
+		if rf.Class == "boot" {
+			fmt.Printf("VIOLATION property=%s replay=%s\n", rf.Property, path)
+			return 1
+		}
+		return fail2("world of a non-boot replay no longer boots")
+	}
+	if rf.Class == "boot" {
+		fmt.Println("world boots now: boot failure not reproduced")
+		return 0
+	}
+	scratch, _ := os.MkdirTemp("", "verif-replay-")
+	defer os.RemoveAll(scratch)
+	pf := filepath.Join(scratch, "plan.json")
+	_ = os.WriteFile(pf, fixPlanWorld(rf.Plan, w.Name), 0o644)
+	j := &job{world: bw, mode: planMode(rf.Plan), plan: pf, out: filepath.Join(scratch, "res.json")}
+	runJob(b, rf.Property, j, nil, append(pc.extraEnv(b), "VERIF_KEEPLOG=1"), 10*time.Minute)
+	if j.err != "" {
+		return fail2("runner: %s", j.err)
+	}
+	if len(j.res.Violations) == 0 {
+		fmt.Printf("replay clean: no violation (log hash %v)\n", j.res.LogHashes)
+		return 0
+	}
+	for _, v := range j.res.Violations {
+		fmt.Printf("class=%s signature=%s\n%s\nlog_hash=%s (recorded %s)\n", v.Class, v.Signature, v.Detail, v.LogHash, rf.LogHash)
+		if os.Getenv("VERIF_SHOWLOG") != "" {
+			for _, l := range v.Log {
+				fmt.Println("  " + l)
+			}
+		}
+	}
+	fmt.Printf("VIOLATION property=%s replay=%s\n", rf.Property, path)
+	return 1
+}
 
 func runSelftest(kind, prop string, seed int64) int { return fail2("selftest not implemented yet") }
